@@ -289,6 +289,7 @@ _EXTRA = {
     'R94': (['C11', 'C12', 'C14', 'C20'], 'R94: reify_edges / reify_attributes store a marker list for every triple they create, exactly one of them with Push(new variable) (and POP on the one-triple node), swap in/out under appears_inverted, and copy unchanged triples in place.'),
     'R95': (['C16', 'C20'], 'R95: _dfs makes the relation symmetric (recognised closure shape, no unguarded reset of a neighbour set) and pushes every unvisited neighbour (filter polarity, work-list shape).'),
     'R96': (_ALL, 'R96: every callable with a non-optional result annotation returns a value on every normal exit (no `return None`, no falling off the end).'),
+    'R97': (['C02', 'C03', 'C05', 'C11', 'C12', 'C20'], 'R97: in _configure_node no path leads from the unexpected-inversion arm to the recursive call without the push flag having been cleared.'),
     'R87': (['C20', 'C17'], 'R87: the option tables main() builds once are only read by process/_process_in/_process_out (alias-following over what is unpacked from them).'),
     'R86': (['C01', 'C07', 'C09', 'C20'], 'R86: an argument annotated as Iterable / Iterator / file is walked at most once on every path (a second walk of a file or generator finds nothing).'),
 }
